@@ -89,7 +89,52 @@ Proof.
   { subst N. rewrite !max_all_ZI. repeat (progress tstep). eexists. reflexivity. }
   rewrite ?max_all_ZI_pos by assumption. repeat (progress tstep). rewrite ?max_all_ZI_pos by assumption. repeat (progress tstep).
   close_stmt.
-  stmt. rewrite ?Hl, ?Hr. repeat (progress tstep). close_stmt.
-  stmt. rewrite ?Hl, ?Hr. repeat (progress tstep).
-  match goal with |- ?G => idtac G end.
-Abort.
+  stmt. close_stmt.
+  stmt. rewrite gather1_tab by (intros i j l Hi Hj Hl0; destruct (Hok i Hi) as (? & ? & ?); unfold ZI; lia). go. close_stmt.
+  stmt. close_stmt.
+  stmt. close_stmt.
+  go. rewrite gather1_tab by (intros i j l Hi Hj Hl0; destruct (Hok i Hi) as (? & ? & ?); unfold ZI; lia). go.
+  close_stmt. go. destruct N; [congruence|]. eexists. reflexivity.
+Qed.
+
+Definition repl_ok N T (lf : nat -> nat) : Prop := forall i, (i < N)%nat -> (1 <= lf i /\ lf i <= T)%nat.
+
+Lemma gpb_replicate N T F xf lf pf qf :
+  (forall i, (i < N)%nat -> (lf i <= T)%nat) ->
+  exists st, Interp.run ext09g gpb_body (gvars N T F xf lf pf qf Model.Replicate) = out_gpb (src_gpb N T F xf lf pf qf Model.Replicate) st.
+Proof.
+  intros HT.
+  unfold Interp.run, gpb_body, gvars, gpb_vars, xT, lensT.
+  stmt. close_stmt.
+  stmt. close_stmt.
+  stmt. close_stmt.
+  open_seq. open_if. go. take_false.
+  open_if. go. take_false.
+  open_if. go. take_true.
+  open_seq. open_if. go.
+  unfold src_gpb, repl_bad.
+  destruct (existsb (fun i => (ZI lf i <? 1)%Z) (seq 0 N)) eqn:E1.
+  { go. take_true. go. eexists. reflexivity. }
+  assert (Hok : repl_ok N T lf).
+  { intros i Hi. assert (Hin : List.In i (seq 0 N)) by (apply in_seq; lia).
+    pose proof (existsb_false_in _ _ E1 i Hin) as A1. cbv beta in A1. unfold ZI in A1. specialize (HT i Hi). lia. }
+  go. take_false. go. close_stmt.
+  stmt.
+  destruct (Nat.eq_dec N 0) as [HN|HN].
+  { subst N. rewrite !max_all_ZI. go. eexists. reflexivity. }
+  rewrite ?max_all_ZI_pos by assumption. go. rewrite ?max_all_ZI_pos by assumption. go.
+  close_stmt.
+  assert (HT1 : Nat.min 1 T = 1%nat).
+  { destruct N; [congruence|]. destruct (Hok 0%nat) as [? ?]; lia. }
+  set (lmax := list_max (map pf (seq 0 N))) in *. set (rmax := list_max (map qf (seq 0 N))) in *.
+  assert (Hl : Nat.min lmax (Nat.max (Nat.max lmax rmax) 1) = lmax) by lia.
+  assert (Hr : Nat.min rmax (Nat.max (Nat.max lmax rmax) 1) = rmax) by lia.
+  assert (Hrr : Nat.min rmax rmax = rmax) by lia.
+  stmt. match goal with |- context [arange ?z] => replace z with (Z.of_nat (Nat.max (Nat.max lmax rmax) 1)) by lia end.
+  go. close_stmt.
+  stmt. close_stmt.
+  stmt. close_stmt.
+  stmt. close_stmt.
+  go. rewrite gather1_tab by (intros i j l Hi Hj Hl0; destruct (Hok i Hi) as (? & ?); unfold ZI; lia). go.
+  close_stmt. go. subst lmax rmax. destruct N; [congruence|]. eexists. reflexivity.
+Qed.
